@@ -110,6 +110,7 @@ type eng struct {
 	// what instr() learned about the decoder, for the disassembly rules
 	readers map[int]rd
 	opField *field
+	globals map[*ssa.Global]*absint.Cell
 }
 
 type rd struct{ kind, addr field }
